@@ -33,6 +33,8 @@ def gen_live_case(rng):
                 origin=rng.choice([[0.0, 0.0, 0.0], [3.0, -2.0, 1.0]]))
     if kind == "radial":
         case["bounds"] = None if rng.random() < 0.3 else [-0.3, 0.3]
+    # the other vertices of the shared face follow the clamped one by translation links (none, one or two followers)
+    case["followers"] = 0 if case["both"] else rng.choice([0, 0, 1, 2, 2])
     return case
 
 
@@ -56,6 +58,8 @@ def build(case):
     for k, v in enumerate(chosen):
         off = np.array(case["offset"], dtype=float) * (1 if k == 0 else -0.5)
         v.move_to(v.position + off)
+    case_followers = int(case.get("followers", 0))
+    build.followers = [v for v in shared if v not in chosen][:case_followers]
     return mesh, chosen
 
 
@@ -88,6 +92,11 @@ def run_live_case(case):
                 opt.add_clamp(cb.RadialClamp(v.position, center, normal, case["bounds"]))
                 described.append(dict(index=v.index, p0=p0, kind="radial", center=[float(x) for x in center], normal=normal,
                                       bounds=case["bounds"]))
+        links = []
+        for fv in build.followers:
+            opt.add_link(cb.TranslationLink(chosen[0].position, fv.position))
+            links.append(dict(leader=chosen[0].index, follower=fv.index,
+                              offset=[float(a - b) for a, b in zip(fv.position, chosen[0].position)]))
         start = [[float(x) for x in v.position] for v in mesh.vertices]
         steps = []
         for _ in range(case["calls"]):
@@ -101,7 +110,7 @@ def run_live_case(case):
                               positions=[[float(x) for x in v.position] for v in mesh.vertices]))
             if exc:
                 break
-    return dict(start=start, described=described, steps=steps)
+    return dict(start=start, described=described, steps=steps, links=links)
 
 
 def oracle_live(case, ob):
@@ -111,8 +120,16 @@ def oracle_live(case, ob):
         call = "call %d of optimize()" % (k + 1)
         if st["exception"]:
             return ("%s raised %s" % (call, st["exception"]), "C13:live:exception")
+        for l in ob.get("links", []):
+            got = np.array(st["positions"][l["follower"]]) - np.array(st["positions"][l["leader"]])
+            if float(np.max(np.abs(got - np.array(l["offset"])))) > 1e-9:
+                return ("%s: vertex %d follows vertex %d by a translation link; follower - leader = %r, it was %r when the link was made" % (
+                    call, l["follower"], l["leader"], got.tolist(), l["offset"]), "C13:live:link-relation-lost")
+        followers = {l["follower"] for l in ob.get("links", [])}
         for i, p in enumerate(st["positions"]):
             p = np.array(p)
+            if i in followers:
+                continue
             if i not in clamped:
                 if float(np.max(np.abs(p - np.array(ob["start"][i])))) > 1e-12:
                     return ("%s: vertex %d has no clamp and moved from %r to %r" % (call, i, ob["start"][i], p.tolist()),
